@@ -10,8 +10,9 @@ import (
 
 // Seg is a run of bytes the scripted peer writes, followed by a pause.
 type Seg struct {
-	Data    []byte
-	PauseMs int64 // 0 none, -1 forever
+	Data     []byte
+	PauseMs  int64 // 0 none, -1 forever
+	WaitStep int   // before writing: wait until the driver has taken this many steps
 }
 
 // Exp is what the script encodes, in wire order (the delivery model's input).
@@ -41,6 +42,7 @@ type expander struct {
 	out    []byte
 	segs   []Seg
 	exps   []Exp
+	waitStep int
 }
 
 func (e *expander) key(mode string) [4]byte {
@@ -65,8 +67,9 @@ func (e *expander) frame(f wsframe.Frame, mode string) {
 
 func (e *expander) flush(pause int64) {
 	if len(e.out) > 0 || pause != 0 {
-		e.segs = append(e.segs, Seg{Data: e.out, PauseMs: pause})
+		e.segs = append(e.segs, Seg{Data: e.out, PauseMs: pause, WaitStep: e.waitStep})
 		e.out = nil
+		e.waitStep = 0
 	}
 }
 
@@ -86,6 +89,9 @@ func ExpandScript(items []SItem, fromClient bool, seed uint64) ([]Seg, []Exp) {
 		switch it.Kind {
 		case "pause":
 			e.flush(it.PauseMs)
+		case "waitstep":
+			e.flush(0)
+			e.waitStep = int(it.PauseMs)
 		case "ctl":
 			data := it.Data
 			x := Exp{Control: true, Op: it.Op, StartOff: e.total()}
